@@ -154,6 +154,26 @@ func valueFidelity(c *Ctx, p *Prog, m *Model, mr *ModeReach, rule string) {
 					}
 				}
 				r.Check(good, rule, key, p.Pos(instrPos(cs)), "base 10", "an integer value is not written in base 10")
+				// the conversions on the way to the formatter keep every value of the source type
+				var lossy []string
+				for v := args[len(args)-2]; ; {
+					cv, ok := v.(*ssa.Convert)
+					if !ok {
+						break
+					}
+					sb, tb := intBits(cv.X.Type()), intBits(cv.Type())
+					if sb > 0 && tb > 0 {
+						su, tu := isUnsigned(cv.X.Type()), isUnsigned(cv.Type())
+						switch {
+						case tb < sb:
+							lossy = append(lossy, fmt.Sprintf("%s narrowed to %s", cv.X.Type(), cv.Type()))
+						case su != tu && !(su && tb > sb):
+							lossy = append(lossy, fmt.Sprintf("%s reinterpreted as %s (values beyond the target's range wrap: an unsigned value from 2^%d prints negative, a negative value prints as a huge number)", cv.X.Type(), cv.Type(), tb-1))
+						}
+					}
+					v = cv.X
+				}
+				r.Check(len(lossy) == 0, rule, key+":conv", p.Pos(instrPos(cs)), "the value reaches the formatter through conversions that keep every value of its type", "a number is not written with its exact value: "+strings.Join(lossy, "; "))
 			case "(time.Time).AppendFormat", "(time.Time).Format":
 				if nm(fn) == "appendTimestamp" {
 					continue // the record's own timestamp: layout chosen by the logger (C16)
@@ -514,6 +534,8 @@ func optionsInOrder(c *Ctx, p *Prog, rule string) {
 			default:
 				if !inLoop(b) {
 					probs = append(probs, "an option is applied outside the loop over the options at "+p.Pos(instrPos(in)))
+				} else if why := optionElemCoverage(ne, cs.Common().Value); why != "" {
+					probs = append(probs, why+" at "+p.Pos(instrPos(in)))
 				}
 			}
 		}
@@ -522,6 +544,86 @@ func optionsInOrder(c *Ctx, p *Prog, rule string) {
 		probs = append(probs, "newentry applies no option")
 	}
 	r.Check(len(probs) == 0, rule, "newentry:options", p.FuncPos(ne), "each option is applied by a direct call, in the order given, to the logger under construction", strings.Join(probs, "; "))
+}
+
+// optionElemCoverage: the option applied is an element of the argument list, and every element gets its turn: the loop
+// ranges over the variadic parameter itself from its first element, or over a re-slice whose dropped prefix was
+// recognised as the name (the comma-ok string assertion on that element holds on the edge to the re-slice).
+func optionElemCoverage(ne *ssa.Function, fv ssa.Value) string {
+	if len(ne.Params) == 0 || !ne.Signature.Variadic() {
+		return ""
+	}
+	args := ne.Params[len(ne.Params)-1]
+	v := strip(fv)
+	if ex, ok := v.(*ssa.Extract); ok {
+		v = ex.Tuple
+	}
+	ta, ok := v.(*ssa.TypeAssert)
+	if !ok {
+		return ""
+	}
+	elem := strip(ta.X)
+	u, ok := elem.(*ssa.UnOp)
+	if !ok {
+		return ""
+	}
+	ia, ok := u.X.(*ssa.IndexAddr)
+	if !ok {
+		return ""
+	}
+	isNameTest := func(g guard) bool {
+		cond, neg := normCond(g.If.Cond)
+		ex, ok := cond.(*ssa.Extract)
+		if !ok || ex.Index != 1 || (g.Succ == 0) == neg {
+			return false
+		}
+		t2, ok := ex.Tuple.(*ssa.TypeAssert)
+		if !ok || !isStringT(t2.AssertedType) {
+			return false
+		}
+		if u2, ok := strip(t2.X).(*ssa.UnOp); ok {
+			if ia2, ok := u2.X.(*ssa.IndexAddr); ok && strip(ia2.X) == ssa.Value(args) {
+				k, isC := constInt(ia2.Index)
+				return isC && k == 0
+			}
+		}
+		return false
+	}
+	for _, src := range sources(ia.X) {
+		switch x := src.(type) {
+		case *ssa.Parameter:
+			if x != args {
+				return "the options applied are not taken from the argument list"
+			}
+		case *ssa.Slice:
+			k := int64(0)
+			if x.Low != nil {
+				kk, isC := constInt(x.Low)
+				if !isC {
+					return "the option loop starts at a computed position of the argument list"
+				}
+				k = kk
+			}
+			if k == 0 {
+				continue
+			}
+			named := false
+			for _, g := range guardsOf(x.Block()) {
+				if isNameTest(g) {
+					named = true
+				}
+			}
+			if k > 1 || !named {
+				return "the first argument is dropped from the option list although it was not recognised as the name (a leading option, e.g. a writer option of an anonymous New(opt, ...), is lost)"
+			}
+		default:
+			return ""
+		}
+	}
+	if strip(ia.X) == ssa.Value(args) && !fullIndexLoop(ia.Index, ia.X) {
+		return "the loop applying the options does not visit every argument from the first"
+	}
+	return ""
 }
 
 // ---- "under go test" means is.InTesting() and nothing else (C12 R12.7) ---------------------------------------------
@@ -1018,5 +1120,270 @@ func searchIndexStepBack(c *Ctx, p *Prog, m *Model) {
 	}
 	if n == 0 {
 		r.OkTrivial("R02.5", "stepback:none", "-", "no search result is stepped back on the print path")
+	}
+}
+
+// noDiagnosticOnSuccess: R02.7 — a destination that reported success gets no further record out of the call.
+// Every call from the sink (or a failure helper) back into the logging spine must sit on the taken edge of
+// "e != nil" where every definition reaching e is the error result of the destination's Write itself: an error
+// manufactured by the sink (a short-count test, a sentinel, a wrapped value from a merge) makes a healthy
+// destination produce a second record on a destination that was not selected.
+func noDiagnosticOnSuccess(c *Ctx, p *Prog, m *Model) {
+	r := c.R
+	callers := p.staticCallers()
+	var writeErrOnly func(v ssa.Value, depth int) (bool, string)
+	writeErrOnly = func(v ssa.Value, depth int) (bool, string) {
+		for _, s := range sources(v) {
+			switch x := s.(type) {
+			case *ssa.Extract:
+				call, ok := x.Tuple.(*ssa.Call)
+				if !ok {
+					return false, "a value that is not the result of Write"
+				}
+				if invokeName(call) == "Write" && x.Index == 1 {
+					continue
+				}
+				if cal := calleeOf(call); cal != nil && nm(cal) == "Write" && x.Index == 1 {
+					continue
+				}
+				return false, "the result of " + call.Common().String()
+			case *ssa.Parameter:
+				if depth > 3 || x.Type().String() != "error" {
+					return false, "parameter " + nm(x)
+				}
+				fn := x.Parent()
+				idx := -1
+				for i, q := range fn.Params {
+					if q == x {
+						idx = i
+					}
+				}
+				sites := callers[fn]
+				if idx < 0 || len(sites) == 0 {
+					return false, "parameter " + nm(x) + " of a function without static callers"
+				}
+				for _, cs := range sites {
+					if idx >= len(cs.Common().Args) {
+						return false, "parameter " + nm(x)
+					}
+					if ok, why := writeErrOnly(cs.Common().Args[idx], depth+1); !ok {
+						return false, why
+					}
+				}
+			default:
+				return false, m.valDesc(s)
+			}
+		}
+		return true, ""
+	}
+	var guarded func(cs ssa.CallInstruction, depth int) (bool, string)
+	guarded = func(cs ssa.CallInstruction, depth int) (bool, string) {
+		why := "no 'err != nil' test dominates it"
+		for _, g := range guardsOf(cs.Block()) {
+			cond, neg := normCond(g.If.Cond)
+			bo, ok := cond.(*ssa.BinOp)
+			if !ok || !isNilConst(bo.Y) || bo.X.Type().String() != "error" {
+				continue
+			}
+			taken := (g.Succ == 0) != neg
+			if !((bo.Op == token.NEQ && taken) || (bo.Op == token.EQL && !taken)) {
+				continue
+			}
+			if ok, w := writeErrOnly(bo.X, 0); ok {
+				return true, ""
+			} else {
+				why = "the error tested can also be " + w + ", which is set although the destination reported success"
+			}
+		}
+		fn := cs.Parent()
+		if m.SinkFns[fn] || depth > 3 {
+			return false, why
+		}
+		sites := callers[fn]
+		if len(sites) == 0 {
+			return false, why
+		}
+		for _, s2 := range sites {
+			if ok, w := guarded(s2, depth+1); !ok {
+				return false, w
+			}
+		}
+		return true, ""
+	}
+	region := failureRegion(p, m)
+	inRegion := map[*ssa.Function]bool{}
+	for _, fn := range region {
+		inRegion[fn] = true
+	}
+	n := 0
+	for _, fn := range region {
+		for _, cs := range callsIn(fn) {
+			cal := calleeOf(cs)
+			if cal == nil || !m.Spine[cal] || inRegion[cal] || fn == cal.Parent() {
+				continue
+			}
+			n++
+			key := "success-silent:" + shortName(fn) + "->" + shortName(cal)
+			ok, why := guarded(cs, 0)
+			r.Check(ok, "R02.7", key, p.Pos(instrPos(cs)), "the nested record is issued only when the destination's own Write returned an error",
+				"a nested record can be issued although every destination reported success ("+why+"): a destination not selected for the record is written to")
+		}
+	}
+	if n == 0 {
+		r.OkTrivial("R02.7", "success-silent:none", "-", "the sink never logs again")
+	}
+}
+
+// ---- the message is handed on as given (R05.10, shared with C04 and C06) -------------------------------------------
+//
+// A string parameter has the message role if the function stores it into the encoder's message field or passes it
+// on as a message-role argument. Along that chain every hop must pass the parameter ITSELF: an argument that is
+// computed from the message (re-sliced, trimmed, concatenated, or merged with such a value at a join) means the
+// record's msg is no longer the text the caller logged. Functions that BUILD the message (the print/printf verbs,
+// the log.Logger bridge that converts a byte buffer) are the chain's origins and not restricted.
+func messageIdentity(c *Ctx, p *Prog, rule string) {
+	r := c.R
+	type role struct {
+		fn  *ssa.Function
+		idx int
+	}
+	roles := map[role]bool{}
+	var work []role
+	add := func(fn *ssa.Function, prm *ssa.Parameter) {
+		for i, q := range fn.Params {
+			if q == prm && !roles[role{fn, i}] {
+				roles[role{fn, i}] = true
+				work = append(work, role{fn, i})
+			}
+		}
+	}
+	type hop struct {
+		fn   *ssa.Function
+		in   ssa.Instruction
+		arg  ssa.Value
+		what string
+	}
+	var hops []hop
+	for _, fn := range p.RepoFuncs() {
+		for _, fs := range fieldStores(fn) {
+			if fs.Struct == "PrintCtx" && fs.Field == "msg" && fs.Kind == "store" && fs.Val != nil {
+				hops = append(hops, hop{fn, fs.Instr, fs.Val, "the encoder's message field"})
+				if prm, ok := strip(fs.Val).(*ssa.Parameter); ok {
+					add(fn, prm)
+				}
+			}
+		}
+	}
+	if len(hops) == 0 {
+		r.Unk(rule, "message:field", "-", "no store to the encoder's message field found")
+		return
+	}
+	callers := p.staticCallers()
+	for len(work) > 0 {
+		w := work[len(work)-1]
+		work = work[:len(work)-1]
+		for _, cs := range callers[w.fn] {
+			if w.idx >= len(cs.Common().Args) {
+				continue
+			}
+			arg := cs.Common().Args[w.idx]
+			hops = append(hops, hop{cs.Parent(), cs, arg, "the message parameter of " + shortName(w.fn)})
+			if prm, ok := strip(arg).(*ssa.Parameter); ok && isStringT(prm.Type()) {
+				add(cs.Parent(), prm)
+			}
+		}
+	}
+	n := 0
+	for _, h := range hops {
+		var mine []*ssa.Parameter
+		for i, q := range h.fn.Params {
+			if roles[role{h.fn, i}] {
+				mine = append(mine, q)
+			}
+		}
+		if len(mine) == 0 {
+			continue // an origin: builds the message
+		}
+		n++
+		key := fmt.Sprintf("message:%s->%s", shortName(h.fn), strings.TrimPrefix(h.what, "the message parameter of "))
+		bad := ""
+		for _, q := range mine {
+			if strip(h.arg) != ssa.Value(q) && dependsOn(h.arg, q) {
+				bad = fmt.Sprintf("%s receives a value computed from the message parameter %s, not the parameter itself: the record's msg is not the text that was logged (a trailing newline, blank or any other part of it is lost or changed)", h.what, nm(q))
+			}
+		}
+		r.Check(bad == "", rule, key, p.Pos(instrPos(h.in)), "the message is handed on unchanged", bad)
+	}
+	if n < 3 {
+		r.Unk(rule, "message:chain", "-", "only %d hops of the message chain recognised", n)
+	}
+}
+
+// ---- argument lists belong to the caller (R10.7, shared with C02) ------------------------------------------------------
+//
+// A variadic parameter called as f(list...) IS the caller's slice. No function of the package stores into an element
+// of a variadic or []any parameter (directly, or through a re-slice or a join of it): a name written into args[0]
+// changes what the same list means the next time the caller uses it.
+func callerArgsUntouched(c *Ctx, p *Prog, rule string) {
+	r := c.R
+	n := 0
+	for _, fn := range p.RepoFuncs() {
+		if fn.Pkg != p.Slog || len(fn.Blocks) == 0 {
+			continue
+		}
+		var lists []*ssa.Parameter
+		for i, q := range fn.Params {
+			if _, ok := q.Type().Underlying().(*types.Slice); !ok {
+				continue
+			}
+			if (fn.Signature.Variadic() && i == len(fn.Params)-1) || q.Type().String() == "[]any" || q.Type().String() == "[]interface{}" {
+				lists = append(lists, q)
+			}
+		}
+		if len(lists) == 0 {
+			continue
+		}
+		n++
+		var probs []string
+		for _, b := range fn.Blocks {
+			for _, in := range b.Instrs {
+				st, ok := in.(*ssa.Store)
+				if !ok {
+					continue
+				}
+				ia, ok := st.Addr.(*ssa.IndexAddr)
+				if !ok {
+					continue
+				}
+				for _, src := range sources(ia.X) {
+					base := src
+					for {
+						if sl, ok := base.(*ssa.Slice); ok {
+							base = strip(sl.X)
+							if ph, ok := base.(*ssa.Phi); ok {
+								for _, e := range sources(ph) {
+									for _, q := range lists {
+										if e == ssa.Value(q) {
+											base = q
+										}
+									}
+								}
+							}
+							continue
+						}
+						break
+					}
+					for _, q := range lists {
+						if base == ssa.Value(q) {
+							probs = append(probs, fmt.Sprintf("stores into an element of its argument list %s at %s", nm(q), p.Pos(instrPos(st))))
+						}
+					}
+				}
+			}
+		}
+		r.Check(len(probs) == 0, rule, "args:"+shortName(fn), p.FuncPos(fn), "never writes into its argument list", strings.Join(dedupStr(probs), "; ")+": called as f(list...) the list is the caller's own slice, which then means something else the next time it is used")
+	}
+	if n < 10 {
+		r.Unk(rule, "args:functions", "-", "only %d functions with an argument list found", n)
 	}
 }
